@@ -79,10 +79,12 @@ def run_with_is_type_of(doc, variables, vf, seed):
 def compare_run(ctx, schema, doc, case, variables, fault_rate, counter):
     vf = make_value(schema, case["seed"], fault_rate)
     calls = []
+    ref = Ref(schema, doc, vf, variables).run()
     try:
-        if schema is rich() and case["seed"] % 6 == 5 and fault_rate == 0:
-            # (conforming data only: with injected faults and awaitables the *set* of reported errors legitimately
-            # depends on the completion order - C03/C07 - so the exact comparison below would not be sound)
+        if schema is rich() and case["seed"] % 6 == 5 and fault_rate == 0 and not ref.get("request_error") and not ref["error_paths"]:
+            # (only when the reference run is free of errors: with injected faults - or with the run-time exemption of a
+            # null variable - and awaitables, *which* of several errors is reported legitimately depends on the completion
+            # order (C03/C07), so the exact comparison below would not be sound)
             # abstract types resolved through is_type_of (no __typename on the values, no type resolver), some of the
             # answers awaitable: run on the controlled loop, first-come-first-served
             res = run_with_is_type_of(doc, variables, vf, case["seed"])
@@ -92,7 +94,6 @@ def compare_run(ctx, schema, doc, case, variables, fault_rate, counter):
     except Exception as e:  # noqa: BLE001
         ctx.violation(f"execute-crash:{type(e).__name__}", {"source": case["source"][:500], "variables": srepr(variables)[:300], "exception": repr(e)[:200]}, case)
         return
-    ref = Ref(schema, doc, vf, variables).run()
     ctx.count(counter)
     base = {"source": case["source"][:600], "variables": srepr(variables)[:300], "origin": case["origin"], "fault_rate": fault_rate}
     if ref.get("request_error"):
